@@ -257,7 +257,7 @@ impl Model for PModel {
 
 pub fn model(tier: Tier) -> PModel {
     let (w, s0) = build_world_p();
-    PModel { w, root: s0, max_devs: if tier == Tier::Quick { 1 } else { 2 }, protocol_paused_code: ERR_PROTOCOL_PAUSED }
+    PModel { w, root: s0, max_devs: if tier == Tier::Quick { 1 } else { 4 }, protocol_paused_code: ERR_PROTOCOL_PAUSED }
 }
 
 fn build_world_p() -> (World, Store) {
@@ -298,7 +298,7 @@ pub fn run(tier: Tier) -> Outcome {
         "traces_validated_against_impl": rep.transitions,
         "evaluations": rep.transitions,
         "distinct_nontrivial": rep.classes.len(),
-        "rule": "all reachable time-abstract states of the pause machine (flags, counters, now-start, now-last_reset, cached flag and start; clipped beyond the guards' constants) under pause/unpause/permissionless-unpause/propagate and time ticks of 600 s, plus at most k one-second off-grid ticks per path (k=1 quick, 2 thorough); searched to the fixpoint; each transition is the real instruction through marginfi::entry; a user deposit probe is evaluated in every state and 3600 s later",
+        "rule": "all reachable time-abstract states of the pause machine (flags, counters, now-start, now-last_reset, cached flag and start; clipped beyond the guards' constants) under pause/unpause/permissionless-unpause/propagate and time ticks of 600 s, plus at most k one-second off-grid ticks per path (k=1 quick, 4 thorough); searched to the fixpoint; each transition is the real instruction through marginfi::entry; a user deposit probe is evaluated in every state and 3600 s later",
         "exhaustive": rep.exhaustive,
         "layers": rep.states_per_layer.len(),
         "max_offgrid_deviations": m.max_devs,
